@@ -34,6 +34,9 @@ import (
 // ErrAsyncNoSpace is returned when an write queue full if not writeForever flags.
 var ErrAsyncNoSpace = errors.New("async write queue is full")
 
+// ErrChannelClosed is returned by write operations on a channel that was closed without an error.
+var ErrChannelClosed = errors.New("netty: channel closed")
+
 // Channel is defines a server-side-channel & client-side-channel
 type Channel interface {
 	// ID channel id
@@ -172,10 +175,7 @@ func (c *channel) ID() int64 {
 // Write a message through the Pipeline
 func (c *channel) Write(message Message) error {
 	if !c.IsActive() {
-		select {
-		case <-c.ctx.Done():
-			return c.closeErr
-		}
+		return c.closedError()
 	}
 
 	c.invokeMethod(func() {
@@ -217,8 +217,8 @@ func (c *channel) Close(err error) {
 
 // Writev to write [][]byte for optimize syscall
 func (c *channel) Writev(p [][]byte) (n int64, err error) {
-	if nil != c.closeErr {
-		return 0, c.closeErr
+	if !c.IsActive() {
+		return 0, c.closedError()
 	}
 
 	// enable async write
@@ -243,6 +243,10 @@ func (c *channel) Write1(p []byte) (n int, err error) {
 // CtxWrite1 channels with asynchronous write enabled, writes will block until the write is successfully sent to the queue or times out.
 // for synchronous write channels, SetDeadline will be called to ensure that the blocking write operation is interrupted after a timeout.
 func (c *channel) CtxWrite1(ctx context.Context, p []byte) (n int, err error) {
+	if !c.IsActive() {
+		return 0, c.closedError()
+	}
+
 	// enable async write
 	if nil != c.writeQueue {
 		wn, err := c.asyncWrite(ctx, p, true)
@@ -270,6 +274,10 @@ func (c *channel) CtxWrite1(ctx context.Context, p []byte) (n int, err error) {
 // CtxWritev channels with asynchronous write enabled, writes will block until the write is successfully sent to the queue or times out.
 // for synchronous write channels, SetDeadline will be called to ensure that the blocking write operation is interrupted after a timeout.
 func (c *channel) CtxWritev(ctx context.Context, pv [][]byte) (n int64, err error) {
+	if !c.IsActive() {
+		return 0, c.closedError()
+	}
+
 	// enable async write
 	if nil != c.writeQueue {
 		wn, err := c.asyncWritev(ctx, pv)
@@ -297,8 +305,8 @@ func (c *channel) CtxWritev(ctx context.Context, pv [][]byte) (n int64, err erro
 // ReadFrom reads data from r until EOF or error.
 // The return value n is the number of bytes read.
 func (c *channel) ReadFrom(r io.Reader) (n int64, err error) {
-	if nil != c.closeErr {
-		return 0, c.closeErr
+	if !c.IsActive() {
+		return 0, c.closedError()
 	}
 
 	const MinRead = 1024
@@ -339,8 +347,8 @@ func (c *channel) Writer() io.Writer {
 }
 
 func (c *channel) write1(p []byte, clone bool) (n int, err error) {
-	if nil != c.closeErr {
-		return 0, c.closeErr
+	if !c.IsActive() {
+		return 0, c.closedError()
 	}
 
 	// enable async write
@@ -381,7 +389,7 @@ func (c *channel) asyncWrite(ctx context.Context, p []byte, clone bool) (int64, 
 		case <-ctx.Done():
 			return 0, ctx.Err()
 		case <-c.ctx.Done():
-			return 0, c.closeErr
+			return 0, c.closedError()
 		case c.writeQueue <- packet:
 			// write queue
 		}
@@ -390,7 +398,7 @@ func (c *channel) asyncWrite(ctx context.Context, p []byte, clone bool) (int64, 
 		case <-ctx.Done():
 			return 0, ctx.Err()
 		case <-c.ctx.Done():
-			return 0, c.closeErr
+			return 0, c.closedError()
 		case c.writeQueue <- packet:
 			// write queue
 		default:
@@ -430,7 +438,7 @@ func (c *channel) asyncWritev(ctx context.Context, p [][]byte) (int64, error) {
 		case <-ctx.Done():
 			return 0, ctx.Err()
 		case <-c.ctx.Done():
-			return 0, c.closeErr
+			return 0, c.closedError()
 		case c.writeQueue <- packet:
 			// write queue
 		}
@@ -439,7 +447,7 @@ func (c *channel) asyncWritev(ctx context.Context, p [][]byte) (int64, error) {
 		case <-ctx.Done():
 			return 0, ctx.Err()
 		case <-c.ctx.Done():
-			return 0, c.closeErr
+			return 0, c.closedError()
 		case c.writeQueue <- packet:
 			// write queue
 		default:
@@ -452,6 +460,16 @@ func (c *channel) asyncWritev(ctx context.Context, p [][]byte) (int64, error) {
 		c.executor.Exec(c.writeOnce)
 	}
 	return dataLen, nil
+}
+
+// closedError waits for the closing of the channel to complete and returns the error
+// the channel was closed with, or ErrChannelClosed if it was closed without one.
+func (c *channel) closedError() error {
+	<-c.ctx.Done()
+	if nil != c.closeErr {
+		return c.closeErr
+	}
+	return ErrChannelClosed
 }
 
 // IsActive return true if the Channel is active and so connected
